@@ -193,6 +193,14 @@ fn judge(spec: &Spec, profile: &str, o: &Outcome) -> Result<(), Failure> {
             if spec.total() <= 40 {
                 return Err(Failure::new("below-limit", format!("[{profile}] total nesting {} is rejected: {msg}\n{head}…", spec.total()), case()));
             }
+            // the limit is kept per header path and per key/value expression (a dotted key nests
+            // its value, a dotted key inside an inline table nests what follows): a document whose
+            // header path is below the limit and whose expression is below the limit is accepted,
+            // whatever the two add up to
+            let expr = spec.key - 1 + spec.levels.iter().map(|l| match l { Level::Array => 1, Level::Inline { key } => *key }).sum::<usize>();
+            if spec.header <= 79 && expr <= 78 {
+                return Err(Failure::new("below-limit", format!("[{profile}] header path of {} segments and key/value nesting of {expr} - both below the limit of 80 - is rejected: {msg}\n{head}…", spec.header), case()));
+            }
             Ok(())
         }
     }
@@ -207,7 +215,7 @@ fn f9_shape(spec: &Spec) -> bool {
 
 pub fn run(args: Args) -> ! {
     let mut rep = Report::new("C05", args.tier, args.seed);
-    rep.rule = "documents from a nesting grammar: header path (table or array of tables) x dotted key x nested arrays / inline tables / inline tables with dotted keys, each depth drawn around 1, 20, 78-81, hundreds and thousands, combined multiplicatively; each input is handled by a worker process on a 2 MiB thread in a debug and a release build (parse, print, debug-print, clone, drop, from_document, toml::from_str). Oracle: the worker survives; accepted => decoded depth <= 256; rejected => never for total nesting <= 40 (whether the message names the recursion limit is recorded as a class); per single construct the smallest rejected depth exists and every smaller depth (in particular <= 79) is accepted; wide documents (79..600 shallow siblings of 14 kinds as lines, array elements and inline-table entries, optionally followed by a construct nested 40 or 70 deep; hundreds of headers and dotted keys) are accepted. non-trivial = >= 2 different constructs with total depth >= 60; distinct by text".into();
+    rep.rule = "documents from a nesting grammar: header path (table or array of tables) x dotted key x nested arrays / inline tables / inline tables with dotted keys, each depth drawn around 1, 20, 78-81, hundreds and thousands, combined multiplicatively; each input is handled by a worker process on a 2 MiB thread in a debug and a release build (parse, print, debug-print, clone, drop, from_document, toml::from_str). Oracle: the worker survives; accepted => decoded depth <= 256; rejected => never when the header path has <= 79 segments and the key/value expression nests <= 78 deep (the limit is kept per header path and per expression; whether the message names the recursion limit is recorded as a class); per single construct the smallest rejected depth exists and every smaller depth (in particular <= 79) is accepted; wide documents (79..600 shallow siblings of 14 kinds as lines, array elements and inline-table entries, optionally followed by a construct nested 40 or 70 deep; hundreds of headers and dotted keys) are accepted. non-trivial = >= 2 different constructs with total depth >= 60; distinct by text".into();
     rep.assumptions = vec!["the exact limit is recorded, not asserted (only: <= 79 accepted, some depth <= 200 rejected)".into()];
     let known_f9 = rep.is_known("F9");
     for p in ["debug", "release"] {
